@@ -51,7 +51,7 @@ def gen_cases(rng, tier):
             p = rand_premul(rng) if near else (0, 0, 0, 0)
             row.append(p + ((0 if (x // 7) % 2 == 0 else 255) if near else rng.choice([0, 255]),))
         x0 = rng.choice([0, 8100, 8180]); ln = min(w - x0, rng.choice([w, 200, 8292 - x0 if 8292 > x0 else 50]))
-        s, a = px_case(4, mode, False, False, rand_color(rng), True, x0, max(1, ln), row)
+        s, a = px_case(rng.choice([4, 6, 6]), mode, False, False, rand_color(rng), True, x0, max(1, ln), row)
         cases.append((s, a + [-777, 10**9 + g, 9]))
     return cases
 
